@@ -106,7 +106,7 @@ func (c *cbLog) handler() kcache.Handler {
 			c.recs = append(c.recs, cbRec{Kind: kind, Obj: o})
 		}
 	}
-	return kcache.BuildHandler().
+	b := kcache.BuildHandler().
 		OnInitialize(func(objs []metav1.Object) {
 			c.enter("init")
 			defer c.leave()
@@ -131,8 +131,23 @@ func (c *cbLog) handler() kcache.Handler {
 		}).
 		OnCreate(one("create")).
 		OnUpdate(one("update")).
-		OnDelete(one("delete")).
+		OnDelete(one("delete"))
+	h := b.Create()
+	// The builder then serves as the template of a second handler, which is never given to any
+	// monitor: the monitor calls the callbacks of ITS handler, so this one must never hear anything.
+	stray := func(kind string) {
+		c.mu.Lock()
+		if c.overlap == "" {
+			c.overlap = "callback " + kind + " was delivered to a handler that no monitor was ever given (it was built, later, from the same HandlerBuilder as the monitor's handler)"
+		}
+		c.mu.Unlock()
+	}
+	b.OnInitialize(func([]metav1.Object) { stray("init") }).
+		OnCreate(func(metav1.Object) { stray("create") }).
+		OnUpdate(func(metav1.Object) { stray("update") }).
+		OnDelete(func(metav1.Object) { stray("delete") }).
 		Create()
+	return h
 }
 
 func (c *cbLog) snapshot() (recs []cbRec, ninit, initAt int, overlap, afterDone string) {
